@@ -7,12 +7,12 @@ from props import tcpcl_common as tc
 ID = 'C14'
 LEVEL = 'exploration'
 RULE = ('keepalive in {0,1,2,5,30,65535} and idle time in {0,1,3,10,60} drawn per side, MRUs / initial segment sizes / '
-        'modulate_target_ack_time drawn, link latencies drawn per write; traffic placed at drawn times over a 40 s simulated '
+        'modulate_target_ack_time drawn, link latencies drawn per write, a quarter of the runs over a slow link (0.3-4 kB/s, so that octets of a message keep arriving for seconds); traffic placed at drawn times over a 40 s simulated '
         'horizon; timing clauses judged without back-pressure (unbounded socket buffers) with tolerance 0.5 s + injected stalls; '
         'a share of runs black-holes the link after a termination request. Non-trivial: both SESS_INIT exchanged and a timer '
         'interval is configured; distinct = distinct event-history digests.')
 COMPONENTS = tc.COMPONENTS
-PROBES = ('wire.KEEPALIVE', 'wire.SESS_TERM', 'probe.idle_term', 'probe.params_queried', 'fault.blackhole', 'probe.modulated')
+PROBES = ('wire.KEEPALIVE', 'wire.SESS_TERM', 'probe.idle_term', 'probe.params_queried', 'fault.blackhole', 'probe.modulated', 'probe.slow_link')
 ASSUMPTIONS = ['as C01', 'timers are judged on the virtual clock; tolerance 0.5 s covers simulated loop latency']
 CHUNK = 10
 
@@ -35,6 +35,9 @@ def gen(ch, tier):
     for op in plan['ops']:
         if op['op'] == 'send' and 't' in op and ch.coin('late', 1, 2):
             op['t'] = ch.pick('late.t', 35) * tcpcl_pair.SEC + ch.choice('late.eps', (0, 999000, 1000, 500000))
+    if ch.coin('slowlink', 1, 4):
+        # a slow link: messages trickle in over seconds, so octets keep arriving while no message completes
+        plan['net'] = dict(plan['net'], tcp_rate=ch.choice('rate', (300, 1000, 4000)))
     plan['ops'].append(dict(t=2 * tcpcl_pair.SEC, node='A', op='params'))
     plan['ops'].append(dict(t=2 * tcpcl_pair.SEC + 7, node='P', op='params'))
     plan['ops'] = sorted((op for op in plan['ops'] if 't' in op), key=lambda op: op['t']) + [op for op in plan['ops'] if 't' not in op]
@@ -57,6 +60,8 @@ def describe(run):
     for side in ('A', 'P'):
         if any(msg['kind'] == 'SESS_TERM' and msg['reason'] == 1 for msg in obs.wire[side]):
             extra['probe.idle_term'] = 1
+    if run.plan['net'].get('tcp_rate'):
+        extra['probe.slow_link'] = 1
     if any(call[3] == 'get_session_parameters' and isinstance(call[5], dict) and call[5] for call in run.calls):
         extra['probe.params_queried'] = 1
     if any(run.plan['cfg'][side].get('modulate_target_ack_time') for side in ('A', 'P')):
